@@ -118,16 +118,38 @@ def extract_options(tree):
            "makeSelector: return DiscreteRange(<lo>, <n>, weights)")
     lo = const_int(body[0].value.args[0])
     off2 = _offset(body[0].value.args[1], lambda n: is_name(n, "n"))
-    # the multiplexer picks options[idx]
+    # the multiplexer stores its selector (first constructor argument) in some attribute, passes it as the first
+    # dependency, and picks options[value[selector]]
+    minit = get_def(tree, "MultiplexerDistribution.__init__", DIST)
+    params = [a.arg for a in minit.args.args]
+    expect(len(params) == 3 and params[0] == "self", "MultiplexerDistribution.__init__(self, <index>, <options>)")
+    p_idx, p_opts = params[1], params[2]
+    idx_attr = None
+    for node in body_nodoc(minit):
+        if (isinstance(node, ast.Assign) and len(node.targets) == 1 and isinstance(node.targets[0], ast.Attribute)
+                and is_name(node.targets[0].value, "self") and is_name(node.value, p_idx)):
+            idx_attr = node.targets[0].attr
+    expect(idx_attr is not None, "MultiplexerDistribution.__init__ does not store its selector in an attribute")
+    sup = body_nodoc(minit)[-1]
+    expect(isinstance(sup, ast.Expr) and isinstance(sup.value, ast.Call) and isinstance(sup.value.func, ast.Attribute)
+           and sup.value.func.attr == "__init__" and len(sup.value.args) == 2 and is_name(sup.value.args[0], p_idx)
+           and isinstance(sup.value.args[1], ast.Starred) and _is_attr(sup.value.args[1].value, "self", "options"),
+           "MultiplexerDistribution.__init__: super().__init__(<index>, *self.options, ...)")
     mux = get_def(tree, "MultiplexerDistribution.sampleGiven", DIST)
-    ret = body_nodoc(mux)[-1]
+    mbody = body_nodoc(mux)
+    first = mbody[0]
+    expect(isinstance(first, ast.Assign) and len(first.targets) == 1 and isinstance(first.targets[0], ast.Name)
+           and _value_sub(first.value, idx_attr),
+           f"MultiplexerDistribution.sampleGiven: <idx> = value[self.{idx_attr}]")
+    local = first.targets[0].id
+    ret = mbody[-1]
     expect(isinstance(ret, ast.Return) and isinstance(ret.value, ast.Subscript) and is_name(ret.value.value, "value")
            and isinstance(ret.value.slice, ast.Subscript) and _is_attr(ret.value.slice.value, "self", "options")
-           and is_name(ret.value.slice.slice, "idx"), "MultiplexerDistribution.sampleGiven: return value[self.options[idx]]")
-    first = body_nodoc(mux)[0]
-    expect(isinstance(first, ast.Assign) and is_name(first.targets[0], "idx") and _value_sub(first.value, "index"),
-           "MultiplexerDistribution.sampleGiven: idx = value[self.index]")
-    return {"selLo": lo, "selHiOff": off + off2}
+           and is_name(ret.value.slice.slice, local),
+           "MultiplexerDistribution.sampleGiven: return value[self.options[<idx>]]")
+    for s in mbody[1:-1]:
+        expect(isinstance(s, ast.Assert), "MultiplexerDistribution.sampleGiven: only assertions between the two")
+    return {"selLo": lo, "selHiOff": off + off2, "muxIndexAttr": idx_attr}
 
 
 def extract_uniform(tree):
@@ -247,7 +269,8 @@ def extract_generate(tree):
 
 #: the configuration the model was written against (used only when the template no longer matches the source)
 REFERENCE = {"lowRound": "ceil", "highRound": "floor", "emptyStrict": True, "selLo": 0, "selHiOff": -1, "dynSelLo": 0,
-             "dynSelHiOff": -1, "actCmp": "le", "actOneMinus": False, "iterStart": 0, "stopCmp": "ge"}
+             "dynSelHiOff": -1, "actCmp": "le", "actOneMinus": False, "iterStart": 0, "stopCmp": "ge",
+             "muxIndexAttr": "_index"}
 
 
 def extract():
